@@ -100,12 +100,15 @@ def run(ctx):
             if made >= per:
                 break
             q = rng.choice([1, 2, 3, 4])
-            ch = gens.gen_chain(rng, enz, q, tmin=2, tmax=10, bmax=8)
+            pal = rng.random() < 0.3
+            ch = gens.gen_chain(rng, enz, q, tmin=2, tmax=10, bmax=8, palindrome=pal)
             if ch is None:
                 continue
             made += 1
             mods = list(ch["modules"])
             kind = "complete"
+            if pal and enz["ovh"] % 2 == 0:
+                ctx.count("junction:palindromic")
             if q > 1 and rng.random() < 0.2:
                 mods.pop(rng.randrange(0, q))
                 kind = "missing"
